@@ -21,7 +21,7 @@ from .build_execution_plan import build_execution_plan
 from .computation import Computation
 from .incremental_publisher import IncrementalPublisher
 from .stream_item_queue import StreamItemQueue
-from .work_queue import Work, WorkResult, WorkTask
+from .work_queue import Work, WorkResult, WorkTask, cancel_task, cancel_work
 
 if TYPE_CHECKING:
     from collections.abc import AsyncIterator, Iterator, Sequence
@@ -220,20 +220,8 @@ class IncrementalExecutor(Executor[DeliveryGroupMap]):
         be run synchronously.
         """
         awaitables: list[Any] = []
-        is_awaitable = self.is_awaitable
-        for task in self.tasks:
-            # a computation that is already running has only settled once its
-            # cancelled future has unwound, so that future is awaited as well
-            pending_future = task.computation.pending_future
-            abort_result = task.computation.abort(reason)
-            if pending_future is not None:
-                awaitables.append(pending_future)
-            if is_awaitable(abort_result):
-                awaitables.append(abort_result)
-        for stream in self.streams:
-            abort_result = stream.queue.abort(reason)
-            if is_awaitable(abort_result):
-                awaitables.append(abort_result)
+        # this includes the work produced by execution groups completed early
+        cancel_work(Work((), self.tasks, self.streams), reason, awaitables)
         if not awaitables:
             return None
 
@@ -539,24 +527,29 @@ class IncrementalExecutor(Executor[DeliveryGroupMap]):
             "Cancelled secondary to null within original result"
         )
 
+        # A computation that was started early keeps running until its cancelled
+        # future has unwound, and one that has been completed early may already
+        # have produced nested work, so both must be cancelled and settled.
+        cancel_awaitables: list[Any] = []
+
         filtered_tasks: list[ExecutionGroup] = []
         for task in tasks:
             if has_nulled_position(task.path):
-                # A computation that was started early keeps running until its
-                # cancelled future has unwound, so that future is tracked as well.
-                pending_future = task.computation.pending_future
-                self.settle_abort_result(task.computation.abort(cancellation_reason))
-                if pending_future is not None:
-                    self.settle_in_background([pending_future])
+                cancel_task(task, cancellation_reason, cancel_awaitables)
             else:
                 filtered_tasks.append(task)
 
         filtered_streams: list[ItemStream] = []
         for stream in streams:
             if has_nulled_position(stream.path):
-                self.settle_abort_result(stream.queue.abort(cancellation_reason))
+                cancel_work(
+                    Work((), (), (stream,)), cancellation_reason, cancel_awaitables
+                )
             else:
                 filtered_streams.append(stream)
+
+        if cancel_awaitables:
+            self.settle_in_background(cancel_awaitables)
 
         return Work(groups, filtered_tasks, filtered_streams)
 
